@@ -267,7 +267,17 @@ def canon(res):
     return re.sub(r"err\((\w*)\)", repl, res)
 
 
-def compare(cases, impl, model):
+def agree(case, a, b, hook=None):
+    """Do implementation result a and model result b agree on this case?  A generator module may supply a
+    hook for cases whose expected value is assembled from the model's placement and a scalar table."""
+    if hook is not None:
+        r = hook(case, a, b)
+        if r is not None:
+            return r
+    return canon(a) == canon(b)
+
+
+def compare(cases, impl, model, hook=None):
     """Returns list of (index, case, impl, model) where the two sides differ."""
     diffs = []
     for i, c in enumerate(cases):
@@ -275,9 +285,33 @@ def compare(cases, impl, model):
             continue
         a = impl[i] if i < len(impl) else "missing"
         b = model[i] if i < len(model) else "missing"
-        if canon(a) != canon(b):
+        if not agree(c, a, b, hook):
             diffs.append((i, c, a, b))
     return diffs
+
+
+def parse_arr(res):
+    """`arr(2x3:a,b,..)` / `parr(..)` -> (shape string, list of element strings) or None"""
+    m = re.match(r"^p?arr\(([0-9x]*):(.*)\)$", res)
+    if not m:
+        return None
+    return m.group(1), (m.group(2).split(",") if m.group(2) else [])
+
+
+def table_agree(impl, model, arity):
+    """impl = `arr(shape:v..)|tbl(k=v;..)` (or err/panic); model = parr/arr of labels.  The expected element at
+    each position is the table entry of the label (pair) the model places there."""
+    res, _, tbl = impl.partition("|tbl(")
+    if not res.startswith("arr("):
+        return canon(res) == canon(model)
+    ia, ma = parse_arr(res), parse_arr(model)
+    if ia is None or ma is None or ia[0] != ma[0] or len(ia[1]) != len(ma[1]):
+        return False
+    t = dict(kv.split("=") for kv in tbl.rstrip(")").split(";") if kv)
+    for v, k in zip(ia[1], ma[1]):
+        if t.get(k) != v:
+            return False
+    return True
 
 
 def run_both(cases, wd, tag="cases", binary=None):
@@ -292,7 +326,7 @@ def run_both(cases, wd, tag="cases", binary=None):
 
 # ---------------------------------------------------------------- shrinking
 
-def _tok_candidates(tok):
+def _tok_candidates(tok, relabel=True):
     """Smaller variants of one argument token."""
     kind, body = tok[0], tok[1:]
     out = []
@@ -331,7 +365,7 @@ def _tok_candidates(tok):
                 if dims[i] == 1 and len(dims) > 1:
                     nd = dims[:i] + dims[i + 1:]
                     out.append("a" + "x".join(map(str, nd)) + ":" + e)
-            if not iota:
+            if not iota and relabel:
                 out.append("a" + d + ":" + ",".join(map(str, range(n))))
     return out
 
@@ -345,7 +379,7 @@ def shrink(case, still_fails, budget=150):
         improved = False
         toks = cur.split(" ")
         for i in range(1, len(toks)):
-            for cand in _tok_candidates(toks[i]):
+            for cand in _tok_candidates(toks[i], relabel=not toks[0].endswith("p")):
                 steps += 1
                 if steps > budget:
                     break
